@@ -3,8 +3,14 @@
 P=$1; S=$2; N=$3
 D=/verif/seeded/$P-$S
 mkdir -p $D && cp -r /tmp/seeds/w_$P/seed_out/* $D/ && rm -rf $D/__pycache__
-/verif/tools/seed_confirm.sh $D > /tmp/seeds/confirm_$P-$S.log 2>&1
+BASE=$(python3 -c "import json;print(json.load(open('/verif/tools/seed_bases.json'))['$P'])")
+BASE=$BASE /verif/tools/seed_confirm.sh $D > /tmp/seeds/confirm_$P-$S.log 2>&1
 tail -8 /tmp/seeds/confirm_$P-$S.log
 if grep -q "RESULT demo0=0 pinned1=0 demo1=[1-9]" /tmp/seeds/confirm_$P-$S.log; then
-  python3 /verif/tools/seed_meta.py $D $P "$N" > /dev/null; echo "CONFIRMED $P-$S"
+  python3 /verif/tools/seed_meta.py $D $P "$N" > /dev/null
+  python3 - $D $BASE <<'PY'
+import json,sys
+f=sys.argv[1]+"/meta.json"; m=json.load(open(f)); m["base_commit"]=sys.argv[2]; json.dump(m,open(f,"w"),indent=1)
+PY
+  echo "CONFIRMED $P-$S"
 else echo "NOT CONFIRMED $P-$S"; fi
